@@ -60,6 +60,7 @@ struct Marking
     std::vector<int> insts; // members handed to AnalyserExternalVariable::create (two for DUPLICATE)
     std::vector<std::pair<int, int>> deps; // declared dependencies (class, instance), as accepted by addDependency
     bool underconstrained = false; // the class is one of U
+    std::vector<std::pair<int, int>> forced; // dependencies to declare first (aimed markings)
 };
 
 const char *ruleName(Issue::ReferenceRule r)
@@ -215,6 +216,17 @@ void run(Src &src, Case &c)
 
     GtOptions opt;
     GtModel gt = genGroundTruthModel(src, opt);
+    // Two later additions to the plan. They are decided from selectors that were already drawn at the start of the tape
+    // (16-bit values of the fourth marking, of which the marking code only uses the residue modulo a handful of
+    // candidates), not from new reads: the tape layout is unchanged, so recorded tapes still decode to the same model and
+    // the same random markings, and short tapes - rapidcheck's vectors are often shorter than the model generator's
+    // appetite, reads past the end give 0 - still reach both choices.
+    const bool wantStaleOrder = (instSel[3] / 16) % 100 < 60; // run the code under the stale-order protocol (ODE / DAE models)
+    const bool aimStale = (clsSel[3] / 16) % 100 < 45; // aim one marking at "state based only through an external variable"
+    const unsigned aimSel = depCls[3][2] / 16, aimDepSel = depInst[3][2] / 16, aimDepKind = (depCls[3][1] / 16) % 3;
+    // The generated models rarely contain an equation-computed variable that a rate needs and that reads no state, so an
+    // aimed case appends one (constant zE, zA computed from it, state zS with dzS/dt = zA) before anything is analysed.
+    const int injected = aimStale ? c20InjectRateChain(gt, (depInst[3][1] / 16) % 4) : -1;
     for (const auto &k : gt.counters) {
         c.count("gen:" + k.first, k.second);
     }
@@ -337,6 +349,65 @@ void run(Src &src, Case &c)
             addMarking(m);
         }
     }
+    // Aimed marking: a class E that an equation-computed class A reads, A being read (transitively) by the rate of a
+    // state and not depending on any state itself; E is declared to depend on a state, or on a variable computed from
+    // states. A is then state based only through the declaration - what the generator must know to recompute A in
+    // computeVariables.
+    if (aimStale && gt.voi >= 0) {
+        std::vector<int> states, stateBasedVars;
+        for (size_t k = 0; k < n; ++k) {
+            if (gt.classes[k].role == GtRole::STATE) {
+                states.push_back(static_cast<int>(k));
+            }
+        }
+        auto readsAState = [&](size_t a) {
+            for (int s : states) {
+                if (dep[a][static_cast<size_t>(s)]) {
+                    return true;
+                }
+            }
+            return false;
+        };
+        for (size_t k = 0; k < n; ++k) {
+            if (gt.classes[k].role == GtRole::ALGEBRAIC && readsAState(k)) {
+                stateBasedVars.push_back(static_cast<int>(k));
+            }
+        }
+        std::vector<int> cand;
+        for (size_t e = 0; e < n; ++e) {
+            const GtRole er = gt.classes[e].role;
+            if (er == GtRole::VOI || er == GtRole::STATE || marked[e] || std::find(U.begin(), U.end(), static_cast<int>(e)) != U.end()) {
+                continue;
+            }
+            bool ok = false;
+            for (size_t a = 0; a < n && !ok; ++a) {
+                const GtRole ar = gt.classes[a].role;
+                if (a == e || !dep[a][e] || marked[a] || (ar != GtRole::COMPUTED_CONSTANT && ar != GtRole::ALGEBRAIC) || readsAState(a)) {
+                    continue;
+                }
+                for (int s : states) {
+                    ok = ok || dep[static_cast<size_t>(s)][a];
+                }
+            }
+            if (ok) {
+                cand.push_back(static_cast<int>(e));
+            }
+        }
+        if (injected >= 0 && std::find(cand.begin(), cand.end(), injected) != cand.end() && aimSel % 4 != 3) {
+            cand.assign(1, injected); // mostly the appended chain, sometimes whatever the model offers
+        }
+        if (!cand.empty() && !states.empty()) {
+            Marking m;
+            m.cls = cand[aimSel % cand.size()];
+            m.insts.push_back(primary[static_cast<size_t>(m.cls)]);
+            int d = (aimDepKind == 2 && !stateBasedVars.empty()) ? stateBasedVars[aimDepSel % stateBasedVars.size()] : states[aimDepSel % states.size()];
+            if (d != m.cls) {
+                m.forced.emplace_back(d, static_cast<int>((aimDepSel / 7) % gt.classes[static_cast<size_t>(d)].inst.size()));
+            }
+            addMarking(m);
+            c.cls("aimed-marking");
+        }
+    }
     for (size_t i = 0; i < nMark && marks.size() < 4; ++i) {
         Marking m;
         unsigned sp = specialSel[i];
@@ -411,8 +482,10 @@ void run(Src &src, Case &c)
                 continue; // the defining equation of a marked class is replaced by the callback
             }
             const auto &cl = gt.classes[a];
+            // The value of a state does not depend on what its rate reads (an external variable that feeds the rate of a
+            // state may well be declared to depend on that state): only its initialising constant counts.
             for (int d : cl.deps) {
-                if (static_cast<size_t>(d) != a) {
+                if (static_cast<size_t>(d) != a && cl.role != GtRole::STATE) {
                     g[a][static_cast<size_t>(d)] = true;
                 }
             }
@@ -453,8 +526,10 @@ void run(Src &src, Case &c)
             if (m.special == FOREIGN) {
                 continue;
             }
-            for (unsigned k = 0; k < nDeps[i] && n > 1; ++k) {
-                size_t d = depCls[i][k] % n;
+            for (unsigned k = 0; k < m.forced.size() + nDeps[i] && n > 1; ++k) {
+                const bool isForced = k < m.forced.size();
+                const unsigned kk = isForced ? 0 : k - static_cast<unsigned>(m.forced.size());
+                size_t d = isForced ? static_cast<size_t>(m.forced[k].first) : depCls[i][kk] % n;
                 if (static_cast<int>(d) == m.cls) {
                     d = (d + 1) % n;
                 }
@@ -462,7 +537,7 @@ void run(Src &src, Case &c)
                     c.count("excluded:cyclic-declared-dependency");
                     continue;
                 }
-                int di = static_cast<int>(depInst[i][k] % gt.classes[d].inst.size());
+                int di = isForced ? m.forced[k].second : static_cast<int>(depInst[i][kk] % gt.classes[d].inst.size());
                 if (std::find(m.deps.begin(), m.deps.end(), std::make_pair(static_cast<int>(d), di)) != m.deps.end()) {
                     continue;
                 }
@@ -635,6 +710,58 @@ void run(Src &src, Case &c)
             e += marked[static_cast<size_t>(u)] ? 1 : 0;
         }
         partialNla = partialNla || (e != 0 && e != sys.unknowns.size());
+    }
+    // Reference for "state/rate based" with and without the declarations, and the class the stale-order protocol is
+    // aimed at: an unmarked equation-computed class that a rate needs and that is state based only through the declared
+    // dependencies of an external variable.
+    std::map<int, std::vector<int>> declaredClasses;
+    for (const auto &m : marks) {
+        if (m.special == VOI || m.special == FOREIGN) {
+            continue;
+        }
+        for (const auto &d : m.deps) {
+            declaredClasses[m.cls].push_back(d.first);
+            if (gt.classes[static_cast<size_t>(d.first)].role == GtRole::STATE && !marked[static_cast<size_t>(d.first)]) {
+                c.cls("declared-dep-on-unmarked-state");
+            }
+        }
+    }
+    const C20Staleness staleness = c20Staleness(gt, marked, declaredClasses);
+    bool staleSensitive = false;
+    {
+        const C20Staleness without = c20Staleness(gt, marked, {});
+        // what the rates of the unmarked states need, through unmarked classes only
+        std::vector<bool> needed(n, false);
+        std::vector<size_t> stack;
+        for (size_t k = 0; k < n; ++k) {
+            if (gt.classes[k].role == GtRole::STATE && !marked[k]) {
+                stack.push_back(k);
+            }
+        }
+        std::vector<bool> seen(n, false);
+        while (!stack.empty()) {
+            size_t x = stack.back();
+            stack.pop_back();
+            if (seen[x] || marked[x]) {
+                continue;
+            }
+            seen[x] = true;
+            for (int d : gt.classes[x].deps) {
+                if (static_cast<size_t>(d) != x && !marked[static_cast<size_t>(d)]) {
+                    needed[static_cast<size_t>(d)] = true;
+                    stack.push_back(static_cast<size_t>(d));
+                }
+            }
+        }
+        for (size_t k = 0; k < n; ++k) {
+            const GtRole r = gt.classes[k].role;
+            if (!marked[k] && needed[k] && (r == GtRole::COMPUTED_CONSTANT || r == GtRole::ALGEBRAIC || r == GtRole::NLA) && staleness.stateBased[k] && !without.stateBased[k]) {
+                staleSensitive = true;
+            }
+        }
+    }
+    if (staleSensitive) {
+        c.cls("state-based-only-through-declared-dependency(feeds-a-rate)");
     }
     c.cls(U.empty() ? "U:empty" : (uSubset ? "U:subset-of-S" : "U:not-subset-of-S"));
     c.cls("markings:" + std::to_string(marks.size()));
@@ -858,6 +985,30 @@ void run(Src &src, Case &c)
     if (!structureOk) {
         return;
     }
+    // AnalyserEquation::isStateRateBased() against the reference (dependency on a state through equations and through
+    // the declared dependencies of external variables)
+    for (size_t k = 0; k < n; ++k) {
+        const ClassView &v1 = view1[k];
+        if (!v1.present || static_cast<int>(k) == gt.voi || voiListed) {
+            continue;
+        }
+        for (size_t i = 0; i < v1.av->equationCount(); ++i) {
+            auto e = v1.av->equation(i);
+            if (e == nullptr) {
+                continue;
+            }
+            c.count("isStateRateBased-compared");
+            if (e->isStateRateBased() != staleness.stateBased[k]) {
+                const std::string role = marked[k] ? "external" : gtRoleName(gt.classes[k].role);
+                if (!report(std::string("C20.state-rate-based|") + (staleness.stateBased[k] ? "false-for-state-based|" : "true-for-not-state-based|") + role,
+                            "equation (" + AnalyserEquation::typeAsString(e->type()) + ") of class " + std::to_string(k) + " " + instLabel(gt, static_cast<int>(k), v1.inst) + ": isStateRateBased() is " + (e->isStateRateBased() ? "true" : "false")
+                                + ", but the variable " + (staleness.stateBased[k] ? "depends on a state (through equations / declared dependencies of external variables)" : "does not depend on any state"))) {
+                    return;
+                }
+                break;
+            }
+        }
+    }
     if (voiListed) {
         // known finding: the variables array has an entry for the VOI that no equation writes; running the code would only repeat it
         c.count("excluded:voi-listed-as-variable(not executed)");
@@ -895,6 +1046,17 @@ void run(Src &src, Case &c)
     RunPlan plan = makeRunPlan(ref.model, map1);
     plan.externals = am1->hasExternalVariables();
     plan.poisonExternals = true;
+    plan.staleOrder = (wantStaleOrder || staleSensitive) && plan.ode;
+    if (plan.staleOrder) {
+        plan.staleResolve = c20StaleResolve(ref.model, map1, staleness);
+        c.cls("stale-order");
+        if (staleSensitive) {
+            c.cls("stale-order+state-based-only-through-declared-dependency");
+        }
+        if (!plan.staleResolve.empty()) {
+            c.cls("stale-order+nla-system-to-solve-again");
+        }
+    }
     std::vector<bool> isExtIndex(map1.vars.size(), false);
     std::vector<int> indexOfClass(n, -1), stateIndexOfClass(n, -1);
     for (size_t i = 0; i < map1.vars.size(); ++i) {
@@ -1002,6 +1164,12 @@ void run(Src &src, Case &c)
                     c.count("declared-dependency-not-due-in-initialiseVariables");
                     continue;
                 }
+                if (plan.staleOrder && k.point == 1 && k.stage == 2 && !staleness.strict[static_cast<size_t>(d.first)]) {
+                    // varies with the VOI (or a dependency-less external) only: computed by computeRates, not again by
+                    // computeVariables (upstream design), so under stale order it holds its first-point value
+                    c.count("stale-order:declared-dependency-exempt(not state based)");
+                    continue;
+                }
                 double got, want;
                 int si = stateIndexOfClass[static_cast<size_t>(d.first)], vi = indexOfClass[static_cast<size_t>(d.first)];
                 if (si >= 0) {
@@ -1044,9 +1212,11 @@ void run(Src &src, Case &c)
                 return false;
             }
         }
-        std::string d = compareRunWithTruth(ref.model, map1, r, kTol, &comparisons);
+        long tolerated = 0;
+        std::string d = plan.staleOrder ? compareRunWithTruth(ref.model, map1, c20TolerateStale(ref.model, map1, r, staleness, &tolerated), kTol, &comparisons) : compareRunWithTruth(ref.model, map1, r, kTol, &comparisons);
+        c.count("stale-order:variables-exempt(not state based)", tolerated);
         if (!d.empty()) {
-            if (!report(std::string("C20.value|") + lang + "|" + d.substr(0, d.find('\n')) + "|" + ctx, d.substr(d.find('\n') + 1) + "\n--- implementation ---\n" + impl.substr(0, 8000))) {
+            if (!report(std::string("C20.value|") + lang + "|" + d.substr(0, d.find('\n')) + (plan.staleOrder ? "|stale-order" : "") + "|" + ctx, d.substr(d.find('\n') + 1) + "\n--- implementation ---\n" + impl.substr(0, 8000))) {
                 return false;
             }
         }
